@@ -385,42 +385,7 @@ func runC08(p *Program, r *Report) {
 		}
 		r.Check(okE, "R-C08-2", name+"/etag<-GetMultipartMD5", p.Pos(f.Pos()), "stored ETag is GetMultipartMD5(parts)", "the completed object's ETag is not computed by backend.GetMultipartMD5 from the listed parts")
 	}
-	gm := p.Func("backend.GetMultipartMD5")
-	// the returned string is built (fmt.Sprintf, strconv.Itoa + concatenation, ...) from len() of the parts parameter
-	okLen := false
-	lenOfParts := func(v ssa.Value) bool {
-		for _, rt := range deepRoots(v) {
-			if rt.Kind == "call" && rt.Desc == "builtin.len" && rt.Call != nil {
-				for _, a := range callArgs(rt.Call) {
-					for _, r2 := range terminalRoots(Origins(a, nil)) {
-						if r2.Kind == "param" {
-							return true
-						}
-					}
-				}
-			}
-		}
-		return false
-	}
-	for _, c := range callsTo(gm, "fmt.Sprintf") {
-		for _, a := range callArgs(c)[1:] {
-			if lenOfParts(a) {
-				okLen = true
-			}
-		}
-	}
-	for _, c := range callsTo(gm, "strconv.Itoa", "strconv.FormatInt") {
-		if lenOfParts(callArgs(c)[0]) {
-			for _, ret := range returnsOf(gm) {
-				for _, rt := range Origins(ret.Results[0], &originOpts{extra: map[string][]int{"strconv.Itoa": nil, "strconv.FormatInt": nil}}) {
-					if (rt.Kind == "call" || rt.Kind == "via") && rt.Call == c {
-						okLen = true
-					}
-				}
-			}
-		}
-	}
-	r.Check(okLen, "R-C08-2", "backend.GetMultipartMD5/suffix<-len(parts)", p.Pos(gm.Pos()), "ETag suffix is the number of parts", "the multipart ETag suffix is not the number of listed parts")
+	multipartETagSuffix(p, r, "R-C08-2")
 
 	// R-C08-3
 	for _, name := range append(append([]string{}, completes...), posixP+"AbortMultipartUpload") {
@@ -1525,4 +1490,44 @@ func isSkipdirsTest(c *ssa.Call) bool {
 		}
 	}
 	return false
+}
+
+// multipartETagSuffix: the "-N" of a multipart ETag is the number of listed parts.
+func multipartETagSuffix(p *Program, r *Report, rule string) {
+	gm := p.Func("backend.GetMultipartMD5")
+	// the returned string is built (fmt.Sprintf, strconv.Itoa + concatenation, ...) from len() of the parts parameter
+	okLen := false
+	lenOfParts := func(v ssa.Value) bool {
+		for _, rt := range deepRoots(v) {
+			if rt.Kind == "call" && rt.Desc == "builtin.len" && rt.Call != nil {
+				for _, a := range callArgs(rt.Call) {
+					for _, r2 := range terminalRoots(Origins(a, nil)) {
+						if r2.Kind == "param" {
+							return true
+						}
+					}
+				}
+			}
+		}
+		return false
+	}
+	for _, c := range callsTo(gm, "fmt.Sprintf") {
+		for _, a := range callArgs(c)[1:] {
+			if lenOfParts(a) {
+				okLen = true
+			}
+		}
+	}
+	for _, c := range callsTo(gm, "strconv.Itoa", "strconv.FormatInt") {
+		if lenOfParts(callArgs(c)[0]) {
+			for _, ret := range returnsOf(gm) {
+				for _, rt := range Origins(ret.Results[0], &originOpts{extra: map[string][]int{"strconv.Itoa": nil, "strconv.FormatInt": nil}}) {
+					if (rt.Kind == "call" || rt.Kind == "via") && rt.Call == c {
+						okLen = true
+					}
+				}
+			}
+		}
+	}
+	r.Check(okLen, rule, "backend.GetMultipartMD5/suffix<-len(parts)", p.Pos(gm.Pos()), "ETag suffix is the number of parts", "the multipart ETag suffix is not the number of listed parts")
 }
